@@ -432,5 +432,42 @@ def sib_block(ctx: Ctx) -> RuleResult:
     return r
 
 
-RULES = {"SIB-DAG": sib_dag, "SIB-EXEC": sib_exec, "SIB-WAIT": sib_wait, "SIB-DRIVE": sib_drive, "SIB-FWD": sib_fwd,
+def sib_ctor(ctx: Ctx) -> RuleResult:
+    """Every kind of ExecNode can be rebuilt from its own field values: where a node is re-created with type(node)(**values),
+    the constructor of every class of the family accepts every field name (explicitly, or through **kwargs)."""
+    r = RuleResult("SIB-CTOR")
+    base = ctx.P.classes[ctx.cls_q("ExecNode")]
+    keys = set(base.fields)
+    r.require(len(keys) >= 10, f"only {len(keys)} ExecNode fields found")
+    sites = []
+    for f in pkg_funcs(ctx):
+        for n in iter_own_nodes(f.node):
+            if isinstance(n, ast.Call) and isinstance(n.func, ast.Call) and dotted(n.func.func) == "type" and len(n.func.args) == 1 \
+                    and any(k.arg is None for k in n.keywords):
+                t = ctx.type_of(f, n.func.args[0])
+                if t and t[0] in ("cls", "inst") and ctx.P.is_subclass(t[1], base.qualname):
+                    sites.append((f, n, t[1]))
+                elif dotted(n.func.args[0]) == "self" and f.cls is not None and ctx.P.is_subclass(f.cls.qualname, base.qualname):
+                    sites.append((f, n, f.cls.qualname))
+    r.require(len(sites) >= 2, f"only {len(sites)} rebuild sites type(node)(**values) found")
+    for f, n, static_q in sites:
+        for c in ctx.P.subclasses(static_q):
+            init = ctx.P.find_method(c, "__init__")
+            if init is None:
+                r.ob(True, {"site": f.short, "class": c.name, "constructor": "generated from the fields"})
+                continue
+            a = init.node.args
+            params = {x.arg for x in a.posonlyargs + a.args + a.kwonlyargs} - {"self"}
+            missing = sorted(keys - params) if a.kwarg is None else []
+            r.ob(not missing, {"site": f.short, "class": c.name, "constructor": init.short,
+                               "accepts": "**" + a.kwarg.arg if a.kwarg is not None else sorted(params)})
+            if missing:
+                r.violate(f"{init.short}: cannot be rebuilt by {f.short} (type(node)(**values)): does not accept {missing[:4]}...",
+                          f.loc(n),
+                          "nodes of this kind exist in user DAGs (constant return values); splicing such a DAG into another one, or "
+                          "re-configuring it, re-creates every node from its field values and fails with TypeError", norm_src(n))
+    return r
+
+
+RULES = {"SIB-CTOR": sib_ctor, "SIB-DAG": sib_dag, "SIB-EXEC": sib_exec, "SIB-WAIT": sib_wait, "SIB-DRIVE": sib_drive, "SIB-FWD": sib_fwd,
          "SIB-FWD-SCHED": sib_fwd_sched, "SIB-BLOCK": sib_block}
